@@ -125,6 +125,11 @@ def main():
         return "expr text=%r ok=%d n16=%s math=%r iif=%r blk=%r" % ("".join(chr(u) for u in e["text"]), e["ok"], e["n"] if e["exact"] else "inexact",
                                                                    "".join(chr(u) for u in e["math"]), "".join(chr(u) for u in e["iif"]), "".join(chr(u) for u in e["blk"]))
     c.oracle("OracleExpr", p, "OracleExpr", sig, timeout=3400, xmx="24g", xss="256m", tags={"NEGPOW": lambda e: "expr NEGPOW " + sig(e)})
+    try:
+        unj = sum(1 for ln in open(os.path.join(c.out, "tlc_OracleExpr.log")) if ln.startswith('<<"UNJ"'))
+        c.stage("not-judged", events_with_a_result_outside_the_exact_domain=unj)
+    except OSError:
+        pass
     evs = vf.read_ndjson(p)
     c.count(distinct_keys=[tuple(e["text"]) for e in evs if len(e["tokens"]) > 1])
     for e in evs[100:len(evs):max(1, len(evs) // 5)]:
